@@ -6,6 +6,7 @@
 import AgeModel.Extracted.CallOrder
 import Proofs.GoTieDecrypt
 import Proofs.GoTiePrims
+import Props.C03
 namespace AgeModel
 namespace Tie.C03
 
@@ -44,6 +45,34 @@ theorem headerMAC_tie (P : Prims) {κ η : Type} (E : GoTie.MacEnv P κ η) (fk 
     Extracted.age_headerMAC E.H E.R E.N E.M E.S fk ⟨hdr.stanzas.map GoTie.toGoFStanza, hdr.mac⟩ =
       .ok (P.hmac (P.hkdf fk [] headerInfo 32) (Format.marshalNoMAC hdr), none) :=
   GoTie.headerMAC_tie P E fk hdr
+
+/-! ### The property, stated about the CODE
+
+`decrypt_tie` composed with `Props.C03.mac_gate`: whenever the TRANSLATED `age.Decrypt` returns without an error —
+i.e. hands out a reader — the file parsed as a header `hdr` followed by `rest`, some identity unwrapped a file key
+`fk`, and the MAC the file carries IS HMAC(HKDF(fk, "header"), the header as received without its MAC); what is
+handed on is the stream key derived from `fk` and the 16 bytes after the header, followed by the payload. -/
+
+theorem code_decrypt_mac_gate (P : Prims) {ι : Type} (E : GoTie.DecryptEnv P ι) (file : Bytes) (ids : List ι)
+    (out : Bytes) (hrun : Extracted.age_Decrypt E.D E.U GoTie.errorsIsEq E.mac E.newReader E.key file ids = .ok (out, none)) :
+    ∃ hdr rest fk, Format.parse file = .ok (hdr, rest) ∧ (∃ i ∈ ids.map E.idOf, i.unwrap P hdr.stanzas = .key fk) ∧
+      hdr.mac = P.hmac (P.hkdf fk [] headerInfo 32) (Format.marshalNoMAC hdr) ∧
+      out = streamKey P fk (rest.take 16) ++ rest.drop 16 := by
+  obtain ⟨res, hrun', hres⟩ := decrypt_tie P E file ids
+  rw [hrun] at hrun'
+  simp only [Except.ok.injEq] at hrun'
+  subst hrun'
+  cases hd : decryptInit P (ids.map E.idOf) file with
+  | mk r c =>
+    rw [hd] at hres
+    cases r with
+    | ok v =>
+      obtain ⟨k, payload⟩ := v
+      simp only [Prod.mk.injEq, and_true] at hres
+      obtain ⟨hdr, rest, fk, hp, hi, hmac, hk, hpl⟩ := Props.C03.mac_gate P (ids.map E.idOf) file k payload c hd
+      exact ⟨hdr, rest, fk, hp, hi, hmac, by rw [hres, hk, hpl]⟩
+    | error e =>
+      cases e <;> simp [GoTie.decryptErr] at hres
 
 end Tie.C03
 end AgeModel
